@@ -173,9 +173,7 @@ func (l *slexer) run() {
 					l.pos++
 				}
 			}
-			if l.pos-start > 300 {
-				l.grey = true // value overflows a double
-			}
+			// (a number of any length is a Number: one too large for a double is an infinity)
 			// exponent form directly attached: accepted by the code (pinned by its tests), not XPath 1.0
 			if l.pos < len(l.s) && (l.s[l.pos] == 'e' || l.s[l.pos] == 'E' || l.s[l.pos] == '.') {
 				l.grey = true
